@@ -8,7 +8,8 @@ REPO = os.environ.get("VERIF_REPO", "/repo")
 BUILD = os.path.join(VERIF, ".build")
 COQ = os.path.join(VERIF, "coq")
 HARNESS = os.path.join(VERIF, "harness")
-ZZV = os.path.join(BUILD, "zzv")
+ZZV_CMD = os.environ.get("VERIF_ZZV_CMD", "zzv")
+ZZV = os.path.join(BUILD, ZZV_CMD)
 GOENV = dict(os.environ, GOFLAGS="-mod=mod", GOPROXY="off")
 GOENV.pop("GOTOOLCHAIN", None)  # 'local' breaks the switch to the cached go1.25.0 toolchain
 GOENV.pop("GOSUMDB", None)
@@ -44,7 +45,7 @@ def build_go():
     """(Re)build the harness binary against /repo's current working tree with hooks enabled."""
     with Lock("go"):
         shutil.copyfile(os.path.join(REPO, "go.sum"), os.path.join(HARNESS, "go.sum"))
-        rc, out = sh(["go", "build", "-tags", "verif conn_insecure", "-o", ZZV, "./cmd/zzv"],
+        rc, out = sh(["go", "build", "-tags", "verif conn_insecure", "-o", ZZV, "./cmd/" + ZZV_CMD],
                      timeout=1500, cwd=HARNESS, env=GOENV)
     return rc == 0, out
 
@@ -65,7 +66,7 @@ def coq_makefile():
         open(stamp, "w").write(cur)
     return True, ""
 
-def coq_make(targets, timeout=3000, clean=False):
+def coq_make(targets, timeout=3000, clean=False, keep_going=False):
     """make the given .vo targets (and only what they depend on)."""
     with Lock("coq"):
         ok, out = coq_makefile()
@@ -73,7 +74,7 @@ def coq_make(targets, timeout=3000, clean=False):
             return False, out
         if clean:
             sh(["make", "clean"], cwd=COQ)
-        rc, out = sh(["make", "-j16"] + targets, timeout=timeout, cwd=COQ)
+        rc, out = sh(["make", "-j16"] + (["-k"] if keep_going else []) + targets, timeout=timeout, cwd=COQ)
     return rc == 0, out
 
 def coqc_capture(relfile, timeout=900):
